@@ -9,6 +9,7 @@ import ClaripyProofs.Lemmas.Solver.CompositeReplace
 import ClaripyProofs.Lemmas.Solver.CompositeExtrema
 import ClaripyProofs.Lemmas.Solver.CompositeExtraQueries
 import ClaripyProofs.Lemmas.Solver.CompositeBranch
+import ClaripyProofs.Lemmas.Solver.CompositeChildKeeps
 /-!
 # C12 — SolverComposite answers like a monolithic solver
 
@@ -740,15 +741,44 @@ theorem C12_composite_tree_history_partial {E : Env} {R : Con → Prop} {RE : Ex
     ∀ x ∈ runTree E { cs := [{ track := track }], w := { fes := [] } } [[]] hist, JudgeOrGiveUp E x.1 x.2.1 x.2.2 :=
   tree_hist H hF hist _ [[]] [] (treeInv_init R RE E track) hok
 
-/-- the full statement of branch isolation for composites: `C12_composite_tree_history_partial` without `CompFrames`.  What is
-missing is exactly `CompFrames R RE E` (for every `SolverHyps` environment): the footprint of `compStep` - a walk through `_add`
-(`_solver_for_names`, `_claim`: `C12_claim_copy_on_write`, the child's `add` on the CLAIMED record, `_store_child`), `satisfiable` /
-the value queries (`_solver_for_names`, the child's query: `FootQ` keeps constraints and variables, `_reabsorb_solver`: `update`
-writes caches of an old child, the parts of `split` are new records) recording which records change. -/
-def C12_composite_tree_history : Prop :=
-  ∀ (E : Env) (R : Con → Prop) (RE : Exp → Prop), SolverHyps R RE E → ∀ (track : Bool) (hist : List (Nat × Op)),
+/-- **the query methods of class SolverCompositeChild never write `constraints` / `variables` of the record they run on**
+(`check_satisfiability`, `eval`, `batch_eval`, `max`, `min`, `solution`, `is_true`, `is_false`, any arguments, ANY state - no
+invariant): a walk through the Z3 algorithms of the backend, `_get_solver`, FullFrontend, ModelCacheMixin, SatCacheMixin (the other
+two mixins inherit the queries), late binding by induction on the unrolling depth -/
+theorem C12_child_queries_keep_constraints (E : Env) : ChildKeeps E := childKeeps E
+
+/-- **the footprint of one public call on a composite** (`add`, `satisfiable`, `eval`, `batch_eval`, `min`, `max`, `solution`,
+`is_true`, `is_false`; any arguments, ANY state - no invariant, no `SolverHyps`): the world of child records only grows; a record
+the composite does not own keeps `constraints` and `variables`; what it owns afterwards it owned before or is a new record; what
+`_solvers` points to afterwards it pointed to before or is a new record.  (`publicAdd` runs on the result of `_claim` only;
+`update` writes caches; `combine` / `split` / `blank_copy` / the child's `branch` append records; `_store_child` is called on a
+claimed child, a merged child or a part of `split`.)  NOT for `simplify` (it rewrites a shared child in place, see design notes). -/
+theorem C12_step_footprint (E : Env) (s : CSt) (op : Op) (hop : op ≠ .simplify ∧ op ≠ .downsize ∧ op ≠ .pickle) :
+    StepFrame s (compStep E s op).2 :=
+  stepFrame_compStep (childKeeps E) s op hop
+
+/-- the hypothesis of `C12_composite_tree_step_partial` / `C12_composite_tree_history_partial` holds -/
+theorem C12_comp_frames (R : Con → Prop) (RE : Exp → Prop) (E : Env) : CompFrames R RE E := compFrames R RE E
+
+/-- **one call on one composite of a tree of branched composites**: the answer is the one `Judge` demands for the constraints of
+the composite that was ASKED, and the tree invariant holds again -/
+theorem C12_composite_tree_step {E : Env} {R : Con → Prop} {RE : Exp → Prop} (H : SolverHyps R RE E)
+    {UU Us : List (List Con)} {t : TSt} (ht : TreeInv R RE E UU Us t) (i : Nat) (hi : i < t.cs.length)
+    (op : Op) (hop : op = .branch ∨ InScopeCE R RE op) :
+    JudgeOrGiveUp E ((usersAll UU i op).getD i []) op (treeStep E t i op).1 ∧
+      ∃ Us', TreeInv R RE E (usersAll UU i op) Us' (treeStep E t i op).2 :=
+  tree_step H (compFrames R RE E) ht i hi op hop
+
+/-- **branch isolation for composites, the full statement**: in ANY interleaving of add / satisfiable / eval / batch_eval / min /
+max / solution / is_true / is_false (any registered extra constraints) and `branch` over a TREE of branched composites (children
+shared copy-on-write), every answer is the one `Judge` demands for the constraints of the composite that was asked - what ITS user
+added, on it or on its ancestors before the branch.  (`C12_composite_tree_history_partial` with `CompFrames` discharged by
+`C12_comp_frames`.) -/
+theorem C12_composite_tree_history :
+    ∀ (E : Env) (R : Con → Prop) (RE : Exp → Prop), SolverHyps R RE E → ∀ (track : Bool) (hist : List (Nat × Op)),
     HistOkT R RE 1 hist →
-    ∀ x ∈ runTree E { cs := [{ track := track }], w := { fes := [] } } [[]] hist, JudgeOrGiveUp E x.1 x.2.1 x.2.2
+    ∀ x ∈ runTree E { cs := [{ track := track }], w := { fes := [] } } [[]] hist, JudgeOrGiveUp E x.1 x.2.1 x.2.2 :=
+  fun E R RE H track hist hok => C12_composite_tree_history_partial H (compFrames R RE E) track hist hok
 
 /-- non-vacuity: a tree history in scope in the environment of C11 (branch, the two sides learn different things, both are asked) -/
 def cTreeHist : List (Nat × Op) :=
@@ -775,6 +805,14 @@ theorem cTreeHist_ok : HistOkT cR cRE 1 cTreeHist := by
 example : TreeInv cR cRE cEnv [[]] [] { cs := [{}], w := { fes := [] } } := treeInv_init cR cRE cEnv false
 example (s : CSt) : StepFrame s (compStep cEnv s (.add [])).2 := StepFrame.refl s
 
+/-- non-vacuity of `C12_composite_tree_history`: its hypotheses hold for the 9 calls of `cTreeHist` on 3 composites in the
+environment of C11, so every answer of that tree history is judged right; and of `C12_step_footprint` (a call that is not `simplify`) -/
+example : SolverHyps cR cRE cEnv ∧ HistOkT cR cRE 1 cTreeHist := ⟨cHyps, cTreeHist_ok⟩
+example : ∀ x ∈ runTree cEnv { cs := [{ track := false }], w := { fes := [] } } [[]] cTreeHist, JudgeOrGiveUp cEnv x.1 x.2.1 x.2.2 :=
+  C12_composite_tree_history cEnv cR cRE cHyps false cTreeHist cTreeHist_ok
+example (s : CSt) : StepFrame s (compStep cEnv s (.eval cExp 2 [cCon])).2 :=
+  C12_step_footprint cEnv s _ ⟨by simp, by simp, by simp⟩
+
 /-- **The full statement**: every history of public calls on a CompositeFrontend (hence, with the mixin layers of C11 on top, on
 a SolverComposite) is answered as the property statement demands for all the constraints added.  Proved: **`C12_composite_history`**
 — ANY history of add / satisfiable() / eval / batch_eval / min / max / solution (no extra constraints) / is_true / is_false (any
@@ -787,8 +825,8 @@ C11's `MCInv` hold under the guard the code uses (`C12_marker_guarded`; `C12_rea
 the old form false).  Missing:
   * `simplify` (a child's `variables` may keep a variable its constraints lost: `ExactVars` fails, see design_notes/C12.md),
     pickling of the composite; `branch` of the composite: `C12_branch_keeps_invariant`, `C12_claim_copy_on_write`,
-    `C12_invariant_frame` are proved, whole trees (`C12_composite_tree_history`) are proved GIVEN the footprint `CompFrames` of the calls
-    (`C12_composite_tree_history_partial`);
+    `C12_invariant_frame` are proved, and whole trees of branched composites are PROVED: `C12_composite_tree_history` (the
+    footprint of the calls: `C12_step_footprint`, from `C12_child_queries_keep_constraints`);
   * the mixins of class SolverComposite above CompositeFrontend, CompositedCacheMixin among them. -/
 def C12_full : Prop :=
   ∀ (E : Env) (R : Con → Prop) (RE : Exp → Prop), SolverHyps R RE E → ∀ (track : Bool) (hist : List Op),
